@@ -16,6 +16,9 @@ structure FInfo where
   newMark : Bool := false    -- doc comment carries `shoot: new`
   defv : String := ""        -- `def=` value, "" when absent
   skip : Bool := false       -- `_`-prefixed name or `new:"-"` tag
+  hasDoc : Bool := false     -- the field has a doc comment (-getset: directives are only read then)
+  get : Bool := false        -- doc matches the `get` directive
+  set : Bool := false        -- doc matches the `set` directive
   deriving Repr, DecidableEq, Inhabited
 
 inductive Tree where
@@ -34,14 +37,29 @@ structure Field where
   isEmbeded : Bool := false
   isNew : Bool := false
   defv : String := ""
+  isGet : Bool := false
+  isSet : Bool := false
   deriving Repr, DecidableEq, Inhabited
+
+/-- `ast.IsExported` (ASCII) -/
+def isExportedName (n : String) : Bool :=
+  match n.toList with
+  | c :: _ => Transfer.isUpper c
+  | [] => false
+
+/-- `parseGetSet` (with -getset): no doc, or both / neither directive ⇒ both; exported ⇒ none -/
+def accessOf (f : FInfo) : Bool × Bool :=
+  if isExportedName f.name then (false, false)
+  else if f.hasDoc then (if f.get = f.set then (true, true) else (f.get, f.set))
+  else (true, true)
 
 abbrev Shadow := Nat → String → Bool
 def noShadow : Shadow := fun _ _ => false
 
 def mkField (sh : Shadow) (d : Nat) (isNew : Bool) (f : FInfo) (top : Bool) : Field :=
   { name := f.name, ptype := f.ptype, depth := d, isNew := isNew,
-    defv := if top then f.defv else "", isShadowed := sh d f.name }
+    defv := if top then f.defv else "", isShadowed := sh d f.name,
+    isGet := top && (accessOf f).1, isSet := top && (accessOf f).2 }
 
 def mkEmbed (sh : Shadow) (d : Nat) (n ty : String) (p : Bool) : Field :=
   { name := n, ptype := ty, depth := d, isPtr := p, isEmbeded := true, isShadowed := sh d n }
